@@ -28,6 +28,8 @@ def run_one(m):
                 s = m["old"].join(parts[:k + 1]) + m["new"] + m["old"].join(parts[k + 1:])
             else:
                 s = s.replace(m["old"], m["new"], m.get("count", 1))
+            if m.get("extra_old"):
+                s = s.replace(m["extra_old"], m["extra_new"], 1)
             open(p, "w").write(s)
         env = dict(os.environ, PYVC_REPO=d, PYVC_OUT=d)
         cmd = ["python3-vt", "-m", "pyvc.check", m["property"], "--tier", "quick"] + (["--no-bounded"] if m.get("proof_only") else [])
